@@ -177,7 +177,7 @@ def include_case(ctx, rng):
     include_run(ctx, {"survey": main_rows, "choices": choices}, inc)
 
 
-def flat_model_call(ctx, form, root="data"):
+def flat_model_call(ctx, form, root="data", op="flat.model"):
     """`FormFlat.formOutFlat` (op `flat.model`) on the rows as they are, `flat` cells included."""
     rows = [formobs.canon_cells(x) for x in form["survey"]]
     lists = sorted({x.get("list_name", "") for x in form.get("choices", [])})
@@ -185,7 +185,7 @@ def flat_model_call(ctx, form, root="data"):
     for k, v in settings:
         if k == "name":
             root = v
-    return ctx.driver.call("flat.model", rows=rows, lists=lists, settings=settings, root=root)
+    return ctx.driver.call(op, rows=rows, lists=lists, settings=settings, root=root)
 
 
 def flat_case(ctx, form):
@@ -211,6 +211,13 @@ def flat_case(ctx, form):
                 ctx.mismatch("flat: bind nodesets", form, obs["binds"], m["binds"])
             if obs["body"] != m["body"]:
                 ctx.mismatch("flat: body refs", form, obs["body"], m["body"])
+        elif m["outcome"] == "unsupported" and "repeat" in m.get("why", ""):
+            # outside the guard of the theorems (flat x repeat, the open finding): the code-shaped instance walk
+            # (`instKidsF` / `arrF` / `tmplKidsF`) is still compared with the implementation's instance
+            w = flat_model_call(ctx, form, op="flat.walk")
+            ctx.count("flat-walk-unguarded:" + w["outcome"])
+            if w["outcome"] == "ok" and not formobs.nt_eq(obs["instance"], w["instance"]):
+                ctx.mismatch("flat: unguarded instance walk", form, formobs.nt_str(obs["instance"]), formobs.nt_str(w["instance"]))
         elif m["outcome"] == "error":
             ctx.mismatch("flat: model rejects, implementation accepts", form, "ok", m["err"])
             if "dupSibling" in m["err"] or "dupSection" in m["err"]:
@@ -230,7 +237,7 @@ def flat_form(rng, big=False):
     around) repeats; a small name pool so that names clash — or not — only through a flat group."""
     pool = ["a", "b", "c", "A", "g", "f", "meta", "x_1"]
     uniq = [0]
-    p_rep_mix = 0.08
+    p_rep_mix = 0.15
     rows = []
 
     def name(kind):
